@@ -992,7 +992,9 @@ class UTPM(Ring, RawAlgorithmsMixIn):
 
         else:
             xbar, = out
-        xbar.data.imag = -ybar.data
+        # the imaginary part of real data is constant zero: nothing to propagate
+        if numpy.iscomplexobj(xbar.data):
+            xbar.data.imag = -ybar.data
 
 
     @classmethod
